@@ -64,9 +64,12 @@ def do_run(seed, tiers):
         b = sh("go build ./...", cwd=wt)
         log["builds"] = b.returncode == 0
         s = sh("go test -vet=off -count=1 ./... 2>&1 | tail -40", cwd=wt, timeout=1800)
-        if "FAIL" in s.stdout and "could not start server" in s.stdout:
-            time.sleep(5)
-            s = sh("go test -vet=off -count=1 ./... 2>&1 | tail -40", cwd=wt, timeout=1800)
+        for attempt in range(4):
+            # webserver's TestApi listens on a hard-coded port; other suites running on this machine clash with it
+            if "FAIL" in s.stdout and ("could not start server" in s.stdout or "galene/webserver" in s.stdout):
+                time.sleep(7)
+                s = sh("go test -vet=off -count=1 ./... 2>&1 | tail -40", cwd=wt, timeout=1800)
+        log["suite_tail"] = s.stdout[-600:] if "FAIL" in s.stdout else ""
         log["pinned_suite_passes_with_patch"] = "FAIL" not in s.stdout and s.returncode == 0
         ok_with, _ = demo()
         log["demo_fails_with_patch"] = not ok_with
